@@ -10,6 +10,8 @@ C39PLAIN = b"0123456789ABCDEFGHIJKLMNOPQRSTUVWXYZ-. $/+%"
 CBDATA = b"0123456789-$:/.+"
 ONED = ["EAN13", "EAN8", "UPCA", "UPCE", "C128", "C93", "C39", "ITF", "CBAR"]
 KEYS = ("op", "sym", "c", "ec", "rd", "th", "h", "mg", "pad", "scale", "rot", "mir")
+# counterexamples found by earlier runs: (symbology, content, pad, scale, rot, TRY_HARDER, reader)
+REGRESSIONS = [("UPCE", "1694148", 10, 2, 180, 0, "own"), ("UPCE", "1694148", 10, 4, 270, 1, "multi"), ("UPCE", "0100242", 10, 2, 180, 0, "own")]
 SHOW = KEYS + ("werr", "w0", "h0", "lead", "trail", "w", "hh", "text", "err", "kind", "orient", "fmt", "mirf", "derr", "dkind", "panic")
 
 
@@ -119,6 +121,15 @@ def build_inputs(ctx, cases):
                 for k in (0, 1):
                     c, rd = content(rng, sym, big)
                     ins.append(pose_event(case, c, rd, 1 + (i + rep + k) % 4, 0, mg=k if sym == "QR" else -1))
+    # UPC-E is the one symbology whose guards are not symmetric: turned round, its digit boundaries are off by three
+    # modules - a denser sweep of numbers there, and the counterexamples found so far (always replayed)
+    for sym, text, pad, scale, rot, th, rd in REGRESSIONS:
+        ins.append(pose_event(dict(sym=sym, th=th, pad=pad, scale=scale, rot=rot, mir=0), text.encode(), rd, 1, 1))
+    for k in range(600 if ctx.quick else 12000):
+        c, rd = content(rng, "UPCE", False)
+        rot = (180, 270)[k % 2]
+        ins.append(pose_event(dict(sym="UPCE", th=1 if rot == 270 else k % 4 // 2, pad=10 + 3 * (k % 3), scale=1 + k % 5, rot=rot, mir=0),
+                              c, rd, 1, 1 + k % 7))
     # decoder level: the module matrix and its transpose
     for k in range(24 if ctx.quick else 400):
         c, _ = content(rng, "QR", not ctx.quick and k % 4 == 0)
